@@ -78,7 +78,10 @@ func tierFor(prop, tier string) tierCfg {
 	switch prop {
 	case "C10":
 		t.race = true
-		t.raceRuns = 6000
+		if tier != "thorough" {
+			t.runs = 40000 // engine S only contributes the framing rule here; engine R carries the weight
+		}
+		t.raceRuns = 8000
 		if tier == "thorough" {
 			t.raceRuns = 120000
 		}
@@ -92,6 +95,11 @@ func tierFor(prop, tier string) tierCfg {
 	if v := os.Getenv("VERIF_RUNS"); v != "" {
 		if n, err := strconv.ParseUint(v, 10, 64); err == nil {
 			t.runs = n
+		}
+	}
+	if v := os.Getenv("VERIF_RACE_RUNS"); v != "" {
+		if n, err := strconv.ParseUint(v, 10, 64); err == nil {
+			t.raceRuns = n
 		}
 	}
 	if v := os.Getenv("VERIF_WALL"); v != "" {
